@@ -70,7 +70,16 @@ def gen(rng, tier):
         elif x < 0.08:
             q0 = 'rej'
         cases.append(_mk(states, sigma, gamma, delta, q0))
-    return cases
+    # other blank symbols than '_' (the TM constructor and parse_tm accept any symbol; '□' is parse_tm's second default)
+    out = []
+    for i, c in enumerate(cases):
+        out.append(c)
+        if i % 3 == 0:
+            b = ['□', 'B', ' ', '0'][(i // 3) % 4]
+            if b not in c['Gamma']:
+                r = lambda x: b if x == '_' else x
+                out.append(dict(c, Gamma=[r(x) for x in c['Gamma']], delta=[[p_, r(g), q_, r(h), d_] for p_, g, q_, h, d_ in c['delta']], blank=b))
+    return out
 
 
 def observe(c):
